@@ -14,7 +14,7 @@ fn viol(s: &In, clause: &str, wit: String, msg: String) -> Violation {
 
 /// histories in which a PUBLISH was delivered in pieces are a class of their own (known finding C12-3)
 fn streamed(s: &In) -> &'static str {
-    if s.sent.iter().any(|x| matches!(x.t, T::PubSplit { .. })) { " with a streamed publish" } else { "" }
+    if s.sent.iter().any(|x| matches!(x.t, T::PubSplit { .. } | T::PubSplit3 { .. })) { " with a streamed publish" } else { "" }
 }
 
 fn v5x(s: &In) -> bool {
